@@ -123,70 +123,57 @@ func (it *Iterator) Seek(target []byte) bool {
 	if len(it.reader.restartPoints) == 0 {
 		return false
 	}
+	it.initialized = true
 
-	// Binary search through restart points
+	// Binary search for the last restart point whose key is <= target: the
+	// first key >= target lies in the interval that starts there (or at the
+	// very first restart point if every key is greater).
 	left, right := 0, len(it.reader.restartPoints)-1
 	for left < right {
-		mid := (left + right) / 2
-		it.restartIdx = mid
+		mid := (left + right + 1) / 2
 		it.currentPos = it.reader.restartPoints[mid]
 
 		key, _, ok := it.decodeCurrent()
 		if !ok {
+			it.currentKey = nil
+			it.currentVal = nil
 			return false
 		}
 
-		if bytes.Compare(key, target) < 0 {
-			left = mid + 1
+		if bytes.Compare(key, target) <= 0 {
+			left = mid
 		} else {
-			right = mid
+			right = mid - 1
 		}
 	}
 
 	// Position at the found restart point
 	it.restartIdx = left
 	it.currentPos = it.reader.restartPoints[left]
-	it.initialized = true
 
-	// First check the current position
 	key, val, ok := it.decodeCurrent()
 	if !ok {
+		it.currentKey = nil
+		it.currentVal = nil
 		return false
 	}
 
-	// If the key at this position is already >= target, we're done
-	if bytes.Compare(key, target) >= 0 {
+	// Scan forward until we find the first key >= target
+	for bytes.Compare(key, target) < 0 {
 		it.currentKey = key
 		it.currentVal = val
-		return true
-	}
-
-	// Otherwise, scan forward until we find the first key >= target
-	for {
-		savePos := it.currentPos
 		key, val, ok = it.decodeNext()
 		if !ok {
-			// Restore position to the last valid entry
-			it.currentPos = savePos
-			key, val, ok = it.decodeCurrent()
-			if ok {
-				it.currentKey = key
-				it.currentVal = val
-				return true
-			}
+			// Every key of the block is smaller than the target
+			it.currentKey = nil
+			it.currentVal = nil
 			return false
 		}
-
-		if bytes.Compare(key, target) >= 0 {
-			it.currentKey = key
-			it.currentVal = val
-			return true
-		}
-
-		// Update current key/value for the next iteration
-		it.currentKey = key
-		it.currentVal = val
 	}
+
+	it.currentKey = key
+	it.currentVal = val
+	return true
 }
 
 // Next advances the iterator to the next entry
@@ -295,6 +282,14 @@ func (it *Iterator) decodeCurrent() ([]byte, []byte, bool) {
 	it.currentKey = key
 	it.currentVal = value
 	it.currentSeqNum = seqNum
+
+	// Leave the position behind the decoded entry, where decodeNext continues.
+	// (It used to stay on the entry, so the first Next after a SeekToFirst or
+	// Seek decoded the same entry a second time.)
+	it.currentPos = uint32(len(it.reader.data) - len(data))
+	if valueLen != TombstoneValueLengthMarker {
+		it.currentPos += valueLen
+	}
 
 	return key, value, true
 }
